@@ -51,6 +51,9 @@ def run(rep, tier):
     build = repo.configure(repo.DEFAULT)
     rule_witness(rep, build, tier)
     rule_forwarding_and_keying(rep, build, tier)
+    # the byte-array helper functions: the C++ decoder helper returns what the C decoder accepts
+    from . import rules_c20
+    rules_c20.rule_cpp_helper_semantic(rep, build, rid="C17.D6")
 
 
 def public_headers():
